@@ -64,7 +64,7 @@ func (b *Bundle) NameFeature(class, role string) {
 	}
 }
 
-var CollisionKinds = []string{"exact", "case", "several", "generatedName", "oaigenTaken", "oaigen1Taken", "paramsBodyTaken", "twoImportsSameName", "caseTwinsInline", "prefixNames"}
+var CollisionKinds = []string{"exact", "case", "several", "generatedName", "oaigenTaken", "oaigen1Taken", "paramsBodyTaken", "twoImportsSameName", "caseTwinsInline", "prefixNames", "anonPointerNameTaken", "anonPointerSymbolsKey"}
 
 // Collision plants a name collision pattern. Imported definitions that collide are $ref-free.
 func (b *Bundle) Collision(kind string) {
@@ -131,6 +131,25 @@ func (b *Bundle) Collision(kind string) {
 		b.Def("Acct"+k, b.Obj()) // unused, and a prefix of the used one
 		b.Def("Acct"+k+"Set", jx.Obj{"type": "object", "description": b.lbl("px"), "properties": jx.Obj{"x": jx.Obj{"$ref": "#/definitions/Acct" + k}}}) // unused too
 		b.Tag("unused")
+	case "anonPointerNameTaken", "anonPointerSymbolsKey":
+		// an anonymous pointer whose target would be named like an existing definition
+		// (taken name, or a property name without letter or digit: the generated name is the host's)
+		host, key := "host"+k, "owner"
+		if kind == "anonPointerSymbolsKey" {
+			key = Pick(b.rng, []string{"{}", "[?]", "{}???", "~"})
+		} else {
+			use(b.Def(host+"Owner", b.Obj()))
+		}
+		sub := b.Obj()
+		if Chance(b.rng, 40) {
+			sub = b.Prim()
+		}
+		use(b.Def(host, jx.Obj{"type": "object", "description": b.lbl("aph"), "properties": jx.Obj{key: sub, "q": jx.Obj{"type": "string"}}}))
+		b.AnonPtr = true
+		ref := "#/definitions/" + host + "/properties/" + jx.EscTok(key)
+		for _, c := range []string{"sharedParam", "codeResponse", "definition"}[:1+b.rng.IntN(3)] {
+			b.Place(c, jx.Obj{"$ref": ref}, "")
+		}
 	case "twoImportsSameName":
 		b.AuxDef("sub/a.json", "dup"+k, b.Obj())
 		b.AuxDef("other/c.json", "dup"+k, b.Obj())
@@ -309,6 +328,12 @@ func sysSpecs() []sysSpec {
 		k := k
 		add("collision/"+k, func(b *Bundle) { b.Collision(k) })
 	}
+	for v := 0; v < 6; v++ {
+		for _, k := range []string{"anonPointerNameTaken", "anonPointerSymbolsKey"} {
+			k, v := k, v
+			add(fmt.Sprintf("collision/%s/v%d", k, v), func(b *Bundle) { b.id(); b.Collision(k) })
+		}
+	}
 	for _, k := range NonSchemaRefKinds {
 		k := k
 		add("nonschema/"+k, func(b *Bundle) { b.NonSchemaRef(k) })
@@ -410,7 +435,7 @@ func RndBundle(rng *rand.Rand, maxFeatures int) *Bundle {
 		case k < 75:
 			c := Pick(rng, CollisionKinds)
 			if single {
-				c = Pick(rng, []string{"generatedName", "paramsBodyTaken", "caseTwinsInline", "prefixNames"})
+				c = Pick(rng, []string{"generatedName", "paramsBodyTaken", "caseTwinsInline", "prefixNames", "anonPointerNameTaken", "anonPointerSymbolsKey"})
 				b.Collision(c)
 			} else if Chance(rng, 60) {
 				ws := collisionWhereSets()
